@@ -704,6 +704,56 @@ fn run_mixseq<W: Write>(thorough: bool, seed: u64, shard: u64, nshards: u64, out
     }
 }
 
+/// operands that alias the stack top (or the registers the instruction itself updates): the memory word read or
+/// written lies within +-4 bytes of SS:SP, SP / BP are themselves operands, segments equal or wrapped
+fn run_alias<W: Write>(thorough: bool, seed: u64, shard: u64, nshards: u64, out: &mut W) {
+    let mut g = Gen { rng: Rng::new(seed ^ 0xa11a5), memseed: seed % 7 + 1 };
+    let mut b = Bench::new();
+    let reps = if thorough { 40 } else { 4 };
+    let templates = [
+        "push word [bp,{d}]", "pop word [bp,{d}]", "push word [bx,{d}]", "pop word [bx,{d}]", "push word ss:[si,{d}]", "pop word ss:[di,{d}]",
+        "xchg word [bp,{d}] ,sp", "xchg word [bp,{d}] ,bp", "mov word [bp,{d}],sp", "mov sp, word [bp,{d}]", "mov bp, word [bp,{d}]",
+        "add word [bp,{d}],sp", "add sp, word [bp,{d}]", "inc word [bp,{d}]", "not word [bp,{d}]", "shl word [bp,{d}],1",
+        "pop sp", "push sp", "pop bp", "push bp", "pop ss", "push ss", "pushf", "popf", "xchg sp,bp", "xchg ax,sp", "mov sp,bp", "lea sp , word [bp,{d}]",
+        "movs word", "movs byte", "stos word", "lods word", "cmps word", "xlat",
+    ];
+    for t in templates.iter() {
+        for d in -4i32..=4 {
+            if !t.contains("{d}") && d != 0 {
+                continue;
+            }
+            for _ in 0..reps {
+                let line = t.replace("{d}", &d.to_string());
+                let mut r = g.regs();
+                // SS:SP family
+                let (ss, sp) = match g.rng.below(5) {
+                    0 => (0u16, 0x100u16),
+                    1 => (0xFFFF, 0x10 + g.rng.below(6) as u16),
+                    2 => (g.rng.next() as u16, g.rng.pick(&[0u16, 1, 2, 3, 0xFFFE, 0xFFFF]).clone()),
+                    _ => (g.rng.next() as u16, g.rng.next() as u16),
+                };
+                r[12] = ss;
+                r[5] = sp;
+                r[6] = sp; // BP = SP
+                r[2] = sp; // BX = SP
+                r[7] = sp; // SI = SP
+                r[8] = sp.wrapping_add(*g.rng.pick(&[0u16, 1, 0xFFFF, 2])); // DI near SI
+                if g.rng.chance(3, 4) {
+                    r[11] = ss; // DS = SS: [bx,d] aliases the stack too
+                    r[13] = ss; // ES = SS
+                }
+                let regs = r.iter().map(|x| x.to_string()).collect::<Vec<_>>().join(" ");
+                let req = format!("x {} | {} | - | {} | {} | 4,17,2 | {} | {}", regs, g.memseed, LABELS, FNS, g.rng.below(50), line);
+                if crate::rng::fnv1a(&req) % nshards != shard {
+                    continue;
+                }
+                let a = answer_with(&mut b, &req);
+                writeln!(out, "{} => {}", req, a).unwrap();
+            }
+        }
+    }
+}
+
 /// MUL/IMUL/DIV/IDIV on the boundary lattice of (DX:AX, operand): divisors 0 / 1 / -1, MIN dividends, quotient-overflow edges
 fn run_divx<W: Write>(thorough: bool, seed: u64, shard: u64, nshards: u64, out: &mut W) {
     let mut g = Gen { rng: Rng::new(seed ^ 0xd1f), memseed: seed % 7 + 1 };
@@ -750,6 +800,9 @@ pub fn run<W: Write>(group: &str, thorough: bool, seed: u64, shard: u64, nshards
     }
     if group == "mixseq" {
         return run_mixseq(thorough, seed, shard, nshards, out);
+    }
+    if group == "alias" {
+        return run_alias(thorough, seed, shard, nshards, out);
     }
     if group == "jumpx" {
         return run_jumpx(thorough, seed, shard, nshards, out);
